@@ -191,6 +191,28 @@ pub mod ctxrules {
             l
         }
     }
+    /// `n` pairwise different ids: the fixed numbers 1000, 1001, ... except the LAST one, which is arbitrary (any other u32).
+    /// (For the lists the library SORTS -- the signers of a rule with up to 16 elements: with all elements symbolic every
+    /// insertion position of the library's insertion sort is symbolic and two sorts of 15 elements exhaust 20 GB in symbolic
+    /// execution; with fixed elements the sort is evaluated during symbolic execution and only the arbitrary last element and
+    /// the arbitrary new element are placed symbolically. The limit logic never looks at the contents.)
+    pub fn fixed_but_last(n: u32) -> List {
+        let mut l = List::empty();
+        l.n = n;
+        let mut k = 0;
+        while k < CAP {
+            if (k as u32) < n {
+                l.x[k] = 1000 + k as u32;
+            }
+            k += 1;
+        }
+        if n > 0 {
+            let last: u32 = kani::any();
+            kani::assume(last < 1000 || last >= 1000 + CAP as u32);
+            l.x[n as usize - 1] = last;
+        }
+        l
+    }
     /// slots 0..=2: Meta(id), Signers(id), Policies(id) of one rule: any id, any type, any 1-byte name, any expiry;
     /// ARBITRARY pairwise different delegated signers (any address ids) and ARBITRARY pairwise different policies;
     /// at least one of them (the registry's invariant)
@@ -317,7 +339,7 @@ pub mod ctxrules {
     fn add_signer_to_full_rule(np: u32) {
         setup_world();
         let e = Env::default();
-        let r = declare_rule(true, distinct_ids(MAX_SIGNERS, MAX_SIGNERS), distinct_ids(np, np));
+        let r = declare_rule(true, fixed_but_last(MAX_SIGNERS), distinct_ids(np, np));
         declare_any_fingerprints();
         let s = arb_new_signer();
         witness!(!is_delegated_in(&s, &r.sig), "limit.new_signer_for_a_full_rule_is_tried");
@@ -353,7 +375,7 @@ pub mod ctxrules {
         setup_world();
         let e = Env::default();
         ttl_representable();
-        let r = declare_rule(true, distinct_ids(MAX_SIGNERS - 1, MAX_SIGNERS - 1), distinct_ids(1, 1));
+        let r = declare_rule(true, fixed_but_last(MAX_SIGNERS - 1), distinct_ids(1, 1));
         let s = arb_new_signer();
         kani::assume(!is_delegated_in(&s, &r.sig));
         witness!(r.sig.n + 1 == MAX_SIGNERS, "limit.call_reaching_exactly_the_documented_maximum_is_tried");
@@ -366,7 +388,6 @@ pub mod ctxrules {
         prop!(post.len() == r.sig.n + 1 && post.get(r.sig.n) == Some(s.clone()), "C20.ctxrules.add_signer.accepted_signer_is_stored");
         prop!(post.len() <= MAX_SIGNERS, "C20.ctxrules.add_signer.signers_limit_exact.not_exceeded_in_storage");
         witness!(post.len() == MAX_SIGNERS, "limit.fifteenth_signer_accepted");
-        witness!(match s { Signer::External(..) => true, _ => false }, "limit.external_signer_accepted");
         end(3, 1);
     }
 }
